@@ -9,8 +9,13 @@ comma-separated decimals.  A Retry object is the 13 tokens
 `total connect read redirect status other allowed forcelist raise_on_status raise_on_redirect
 respect_retry_after backoff_factor backoff_max` (history empty).
 
-* `run <proxied> <retry…> <method> <script>` — one `urlopen`; script items `ct cr rt rr re rg o
-  s<status>[:<retry-after>]`;
+* `run <proxied> <redirect> <body> <method> <script> <policy…>` — one `urlopen(method, url, body,
+  retries=policy, redirect=redirect)` on a pool whose own `retries` is `None`; `policy` is the 13
+  tokens of a Retry object or `I <~|F|int>` (then `Retry.from_int` runs inside the model); script
+  items `ct cr rt rr re rg o s<status>[:<retry-after>] l<status>[:<retry-after>]` (`l`: the reply
+  carries `Location:` a path on the same pool).  Answer: per attempt
+  `<method>@<target><+|-(body)>/<outcome>`, requests on the wire, sleeps, result
+  (`resp:<script index of the reply returned>:<status>`);
 * `fromint <arg> <redirect> <default>` — `Retry.from_int` (`arg`: `~`, `F`, int);
 * `retry <retry…>` loads an object; `inc <method|~> <event>` (`e:<Err>`, `r:<status>`, `s:<status>`,
   `n`) replaces it by `increment(...)` when that returns; `show`, `exh`, `isretry <method> <status>
@@ -59,6 +64,7 @@ def outcome? (s : String) : Option Outcome :=
   else if s == "rg" then some (.readError .garbage)
   else if s == "o" then some .otherError
   else if s.startsWith "s" then (respTok? (s.drop 1).toString).map fun (a, b) => .response a b
+  else if s.startsWith "l" then (respTok? (s.drop 1).toString).map fun (a, b) => .located a b
   else none
 
 def script? (s : String) : Option (List Outcome) :=
@@ -114,6 +120,8 @@ def showOutcome : Outcome → String
   | .otherError => "o"
   | .response s none => s!"s{s}"
   | .response s (some n) => s!"s{s}:{n}"
+  | .located s none => s!"l{s}"
+  | .located s (some n) => s!"l{s}:{n}"
 
 def showHist (h : Hist) : String :=
   (match h.error with | some e => showErr e | none => "~") ++ "/" ++
@@ -129,13 +137,16 @@ def showRetry (r : Retry) : String :=
   s!"hist={if r.history.isEmpty then "-" else ",".intercalate (r.history.map showHist)}"
 
 def showResult : Result → String
-  | .response s => s!"resp:{s}"
+  | .response i s => s!"resp:{i}:{s}"
   | .maxRetry c => "max:" ++ showCause c
   | .reraised e => "err:" ++ showErr e
   | .outOfScript => "out-of-script"
 
+def showAttempt (a : Attempt) : String :=
+  s!"{showStr a.rq.method}@{a.rq.target}{if a.rq.body then "+" else "-"}/{showOutcome a.outcome}"
+
 def showRun (x : Run) : String :=
-  let att := if x.attempts.isEmpty then "-" else ",".intercalate (x.outcomes.map showOutcome)
+  let att := if x.attempts.isEmpty then "-" else ",".intercalate (x.attempts.map showAttempt)
   s!"att={att} sent={x.sent.length} sleeps={showInts x.sleeps} res={showResult x.result}"
 
 def arg? (s : String) : Option Arg :=
@@ -153,12 +164,13 @@ def method? (s : String) : Option (Option Str) := optStr? s
 def stepLine (st : Option Retry) (toks : List String) : Option Retry × String :=
   match toks with
   | ["reset"] => (none, "ok")
-  | "run" :: p :: rest =>
-    if rest.length == 15 then
-      match bool? p, retry? (rest.take 13), str? (rest.getD 13 ""), script? (rest.getD 14 "") with
-      | some p, some r, some m, some sc => (st, showRun (runAttempts ⟨p⟩ r m sc))
-      | _, _, _, _ => (st, "bad-op")
-    else (st, "bad-op")
+  | "run" :: p :: rd :: bd :: m :: sc :: pol =>
+    let arg : Option Arg := match pol with
+      | ["I", a] => arg? a
+      | _ => (retry? pol).map .retry
+    match bool? p, bool? rd, bool? bd, str? m, script? sc, arg with
+    | some p, some rd, some bd, some m, some sc, some a => (st, showRun (urlopen ⟨p⟩ .none a rd m bd sc))
+    | _, _, _, _, _, _ => (st, "bad-op")
   | ["fromint", a, rd, d] =>
     match arg? a, bool? rd, arg? d with
     | some a, some rd, some d => (st, showRetry (Retry.fromInt a rd d))
